@@ -143,6 +143,9 @@ func arithOp(op token.Token, a, b KindSet) KindSet {
 	if a.has(kZOFF) && op == token.ADD && b.has(kF) {
 		return ks(kTZ)
 	}
+	if a.has(kZOFF) && op == token.SUB && b.has(kTZ) {
+		return ks(kF) // offset - key = -(key - offset): the negated value on the index scale (ceil(x) = -floor(-x))
+	}
 	return arith(a, b)
 }
 
